@@ -10,7 +10,8 @@ NOTES = ('Every check is ./check <id>: contracts in /verif/contracts/c_*.py on t
 SPECTRUM_TRUST = ['python list semantics (concatenation, repetition, slicing with clamping and negative wrap, slice '
                   'assignment, index, zip) as encoded in pyvc/slist.py',
                   'Enum members inside symbolic-length lists are represented by integer codes',
-                  'order_slots/restore_order: assumed contract for one-entry requests, checked bounded']
+                  'sorted() of a list of concrete length with a lambda key: executed symbolically (stable insertion, one path per '
+                  'comparison outcome; float(inf) as a value above every integer)']
 
 PROPS = {
     'C01': {
@@ -51,7 +52,8 @@ PROPS = {
         'claim': 'Roadm.propagate proved for all spectra and all six policy/precedence branches: every channel leaves at '
                  'min(target + offset, input - path loss) with the target of the egress degree if set else of the node '
                  '(constant power, PSD x baud rate, PSW x slot width), never with more power than it entered; PMD/PDL in '
-                 'quadrature; shares untouched.',
+                 'quadrature; shares untouched. The same precedence (degree before node; power, PSD, PSW) is proved for the '
+                 'helpers the design uses: get_per_degree_power, get_per_degree_ref_power and get_roadm_target_power on the reference carrier.',
         'level_note': 'get_impairment is an assumed contract in the proof of Roadm.propagate (one value per channel, max loss >= 0): '
                       'that each add / drop / express crossing reads the impairment set of its own type (or the set declared for '
                       'that pair of degrees) is a bounded stand-in on designed meshes; single-policy enforcement is proved for '
@@ -83,7 +85,8 @@ PROPS = {
                  'when the rounded minimum over channels of GSNR(0.1 nm) - penalties is below required OSNR + margin, on the '
                  'path or (bidirectional) on the reverse path, each evaluated on a deep copy; receiver figures: _calc_snr '
                  'definitions, inverse-sum identity, update_snr adds every contribution once on the RAW figures and never '
-                 'writes raw_* or osnr_nli.',
+                 'writes raw_* or osnr_nli; the impairments the penalty tables are looked up with are those the path accumulated '
+                 '(Transceiver._calc_cd / _calc_pmd / _calc_pdl, in the units of the tables).',
         'level_note': 'propagate() is a call-site summary in the verdict contract (its loop is proved per element in C02); '
                       'update_snr proved for up to three contributions; the automatic mode search loop '
                       '(propagate_and_optimize_mode: ordering by baud rate then bit rate, blocking reasons) is not under contract '
@@ -105,7 +108,10 @@ PROPS = {
                  'alias a real map; determine_slot_numbers (loop invariant) and spectrum_selection return only free '
                  'windows inside the guard bands, first fit returns the lowest feasible one; compute_n_m changes no real '
                  'map; pth_assign_spectrum: accepted => range was free on every path OMS and occupancy = old + range, '
-                 'user-fixed N/M verbatim, enough slots; blocked => no labels, no spectrum change.',
+                 'user-fixed N/M verbatim, enough slots; blocked => no labels, no spectrum change. The same chain is proved under '
+                 'the last-fit policy (highest feasible window). order_slots / restore_order proved for one- and two-entry requests '
+                 '(permutation, widest first, restore inverts order); slot <-> (N, M) <-> frequency helpers are mutually inverse; '
+                 'compute_spectrum_slot_vs_bandwidth gives enough whole slots per channel.',
         'level_note': 'structure bounds of the compute_n_m / pth_assign_spectrum contracts: one request with one (N, M) '
                       'entry over a two-OMS list (path over one or both); map sizes, extents and contents unbounded. '
                       'The history clause (occupancy = union of accepted ranges, pairwise disjoint) follows by induction '
@@ -114,7 +120,8 @@ PROPS = {
                       'or mixed, are outside the contracts and checked by a bounded stand-in from the service document to the '
                       'assignment (used as given, or refused / blocked; no exception, no planner that does not return); histories of services over '
                       'lines without amplifier (fused-only patches, passive lines) are a bounded stand-in; the upper guard band is one slot '
-                      'short (known finding F43)',
+                      'short (known finding F43); order_slots / restore_order on requests of more than two entries: bounded stand-in '
+                      '(the call sites of compute_n_m use the proved one-entry contract, whose precondition len == 1 is an obligation there)',
         'trusted': SPECTRUM_TRUST,
         'extra': [{'name': 'order_slots', 'kind': 'bounded', 'script': 'bounded/order_slots.py'},
                   # service documents with N / M fixed, free or mixed in several entries, loaded and planned end to end
@@ -128,7 +135,8 @@ PROPS = {
         'claim': 'frequency<->slot index maps, Bitmap construction, insert_left/right, the align_grids loop body for an '
                  'arbitrary map (any number of maps) and create_oms_bitmap (1-3 common bands) proved for all extents: '
                  'every map covers n(f_min)..n(f_max), usable exactly inside the common bands, indices unique and '
-                 'consecutive, old occupancy kept at its index.',
+                 'consecutive, old occupancy kept at its index; nvalue_to_frequency (G.694.1 rule), slots_to_m / mvalue_to_slots / '
+                 'm_to_freq and Bitmap.getn / geti are proved mutually inverse.',
         'level_note': 'the OMS partition of the graph (build_oms_list walk) is a bounded stand-in on '
                       'designed topologies <= 4 ROADM sites + the shipped multiband example; reversed_oms is proved for three OMS '
                       'with arbitrary end names (first opposite direction, unpaired recorded as None); '
@@ -219,7 +227,8 @@ PROPS = {
                  '(10 log10 e); the accumulated dispersion of a span is D(f) x length with D from beta2 / beta3, beta2 from the '
                  'fibre\'s dispersion and slope; RamanFiber.propagate applies padding + input connector before and the output '
                  'connector after the Raman solver\'s profile and adds its ASE once; ROADM and amplifier PMD/PDL in quadrature '
-                 '(C06/C04 contracts).',
+                 '(C06/C04 contracts); the receiver reads off exactly what the path accumulated (Transceiver._calc_cd / _calc_pmd / '
+                 '_calc_pdl / _calc_latency: ps/nm, ps, dB, ms).',
         'level_note': 'scalar loss coefficient and scalar dispersion in the propagation proofs; a per-frequency loss table is proved to be '
                       'read at the frequencies asked for (the interpolation itself is scipy\'s, an assumed pure function; tables listed in '
                       'any order are a bounded stand-in); _create_lumped_losses + cumprod is an assumed contract checked bounded (it fails for two lumped '
